@@ -322,6 +322,60 @@ func indexSafe(fn *ssa.Function, b *ssa.BasicBlock, x, idx ssa.Value, sortCB boo
 	if d := idxBelowLen(b, idx, x); d >= 0 && nonNeg(idx, 0, map[ssa.Value]bool{}) {
 		return "index tested to be below the length"
 	}
+	// i - k for the index i of the range loop over the same container, under i != 0 / i > 0 / i >= k
+	{
+		li := linOf(idx, 0)
+		for sym, co := range li {
+			if co != 1 || !strings.HasPrefix(sym, "phi:rangeindex") {
+				continue
+			}
+			rest := linWithout(li, sym)
+			// the SSA index value is phi+1, so `i - 1` reads phi + 0
+			if !onlyZero(linWithout(rest, "1")) || rest["1"] > 0 || rest["1"] < -3 {
+				continue
+			}
+			k := int64(1 - rest["1"]) // index == i - k + 1 ... with i = phi+1: idx = i - (1 - rest)
+			k = int64(-rest["1"]) + 1
+			_ = k
+			// find the loop's own index value (phi+1) and its bound
+			for ifi, outcome := range controllingConds(b) {
+				bo, ok := ifi.Cond.(*ssa.BinOp)
+				if !ok {
+					continue
+				}
+				iv := linOf(bo.X, 0)
+				if iv[sym] != 1 || !onlyZero(linWithout(linWithout(iv, sym), "1")) || iv["1"] != 1 {
+					continue
+				}
+				c0, isC := constInt(bo.Y)
+				if !isC {
+					continue
+				}
+				need := int64(1-rest["1"]) - 1 // i >= need
+				ge := int64(-1)
+				switch {
+				case bo.Op == token.EQL && !outcome && c0 == 0, bo.Op == token.NEQ && outcome && c0 == 0:
+					ge = 1
+				case bo.Op == token.GTR && outcome:
+					ge = c0 + 1
+				case bo.Op == token.GEQ && outcome:
+					ge = c0
+				case bo.Op == token.LSS && !outcome:
+					ge = c0
+				case bo.Op == token.LEQ && !outcome:
+					ge = c0 + 1
+				}
+				if ge >= need && need >= 0 {
+					// and the loop ranges over the same container
+					for _, ref := range *bo.X.Referrers() {
+						if cmp, ok := ref.(*ssa.BinOp); ok && cmp.Op == token.LSS && cmp.X == bo.X && isLenOf(cmp.Y, x) {
+							return "an earlier element of the range loop over the same value, index tested to be large enough"
+						}
+					}
+				}
+			}
+		}
+	}
 	// the index of a range loop over another container whose length was tested to be equal
 	if bo, ok := idx.(*ssa.BinOp); ok && bo.Op == token.ADD {
 		if ph, ok := bo.X.(*ssa.Phi); ok && strings.HasPrefix(ph.Comment, "rangeindex") {
